@@ -6,7 +6,7 @@ use crate::{
     formatters::{
         assignment::{hang_equal_token, hang_punctuated_list},
         expression::{format_expression, hang_expression},
-        general::{format_punctuated, format_punctuated_multiline},
+        general::{format_punctuated, format_punctuated_multiline, format_token, FormatTokenType},
         stmt::format_stmt,
         trivia::{
             strip_leading_trivia, strip_trailing_trivia, strip_trivia, FormatTriviaType,
@@ -474,9 +474,7 @@ fn var_has_parentheses(var: &Var) -> bool {
 }
 
 /// Whether the next statement begins with a parenthesised expression (e.g. `(foo)()` or `(foo).bar = 1`)
-fn next_stmt_begins_with_parentheses(
-    next_stmt: Option<&&(Stmt, Option<TokenReference>)>,
-) -> bool {
+fn next_stmt_begins_with_parentheses(next_stmt: Option<&&(Stmt, Option<TokenReference>)>) -> bool {
     match next_stmt {
         Some((Stmt::FunctionCall(function_call), _)) => match function_call.prefix() {
             Prefix::Expression(expression) => {
@@ -577,8 +575,15 @@ pub fn format_block(ctx: &Context, block: &Block, shape: Shape) -> Block {
                                 .chain(semi.trailing_trivia())
                                 .filter(|token| trivia_util::trivia_is_comment(token))
                                 .flat_map(|x| {
-                                    // Prepend a single space beforehand
-                                    vec![Token::new(TokenType::spaces(1)), x.to_owned()]
+                                    // Prepend a single space beforehand, and format the comment itself
+                                    // (trailing whitespace, line endings) like any other trailing comment
+                                    let (comment, _, _) = format_token(
+                                        &ctx,
+                                        x,
+                                        FormatTokenType::TrailingTrivia,
+                                        shape,
+                                    );
+                                    vec![Token::new(TokenType::spaces(1)), comment]
                                 }),
                         )
                         .chain(std::iter::once(create_newline_trivia(&ctx)))
@@ -631,8 +636,15 @@ pub fn format_block(ctx: &Context, block: &Block, shape: Shape) -> Block {
                                 .chain(semi.trailing_trivia())
                                 .filter(|token| trivia_util::trivia_is_comment(token))
                                 .flat_map(|x| {
-                                    // Prepend a single space beforehand
-                                    vec![Token::new(TokenType::spaces(1)), x.to_owned()]
+                                    // Prepend a single space beforehand, and format the comment itself
+                                    // (trailing whitespace, line endings) like any other trailing comment
+                                    let (comment, _, _) = format_token(
+                                        &ctx,
+                                        x,
+                                        FormatTokenType::TrailingTrivia,
+                                        shape,
+                                    );
+                                    vec![Token::new(TokenType::spaces(1)), comment]
                                 }),
                         )
                         .chain(std::iter::once(create_newline_trivia(&ctx)))
